@@ -44,6 +44,10 @@ class Learner:
         Learner.log.append(self)
 
     def fit(self, X, y):  # noqa: N803
+        # contract of the sklearn / xgboost estimators: non-finite training targets are refused
+        for v in np.asarray(y, dtype=object).ravel():
+            if not hasattr(v, "t") and not np.isfinite(float(v)):
+                raise ValueError("Input y contains NaN or infinity (estimator contract: non-finite targets are refused)")
         self.fitted = (X, y, np.array(X, dtype=object).copy(), np.array(y, dtype=object).copy())
         return self
 
